@@ -122,6 +122,43 @@ macro_rules! declare_storage_n {
                     self.destroyed.clear();
                 }
 
+                /// Verification hook: copies out the bookkeeping state of this storage.
+                /// Read-only. Compiled only with `--cfg gecs_verif`, never in normal builds.
+                #[cfg(gecs_verif)]
+                #[doc(hidden)]
+                pub fn __verif_dump(&self) -> VerifDump {
+                    unsafe {
+                        // SAFETY: The slot storage is valid up to our capacity,
+                        // and the entity storage is valid up to our length.
+                        VerifDump {
+                            version: self.version.get().get(),
+                            len: self.len,
+                            capacity: self.capacity,
+                            free_head: self.free_head.__verif_raw(),
+                            slots: self.slots.slice(self.capacity).iter().map(|s| s.__verif_raw()).collect(),
+                            entities: self.entities.slice(self.len).iter().map(|e| e.into_any().raw()).collect(),
+                        }
+                    }
+                }
+
+                /// Verification hook: presets the generational versions of an EMPTY storage,
+                /// so that version overflow can be reached without 2^32 create/destroy cycles.
+                /// Compiled only with `--cfg gecs_verif`, never in normal builds.
+                #[cfg(gecs_verif)]
+                #[doc(hidden)]
+                pub fn __verif_preset_generations(&mut self, slot_versions: &[u32], version: u32) {
+                    assert!(self.len == 0, "preset requires an empty storage");
+                    assert!(slot_versions.len() <= self.capacity, "preset exceeds capacity");
+                    unsafe {
+                        // SAFETY: The slot storage is valid up to our capacity.
+                        let slots = self.slots.slice_mut(self.capacity);
+                        for (slot, version) in slots.iter_mut().zip(slot_versions.iter()) {
+                            slot.__verif_set_version(std::num::NonZeroU32::new(*version).unwrap());
+                        }
+                    }
+                    self.version = ArchetypeVersion::__verif_new(std::num::NonZeroU32::new(version).unwrap());
+                }
+
                 /// Adds a new entity with the given components to this storage.
                 /// Returns a typed entity handle pointing to the added element.
                 ///
@@ -849,6 +886,24 @@ seq!(N in 17..=32 {
         N
     );
 });
+
+/// Verification hook: a copy of a storage's bookkeeping state (see `__verif_dump`).
+/// Compiled only with `--cfg gecs_verif`, never in normal builds.
+#[cfg(gecs_verif)]
+#[doc(hidden)]
+#[derive(Clone, Debug, PartialEq, Eq)]
+pub struct VerifDump {
+    /// The archetype version.
+    pub version: u32,
+    pub len: usize,
+    pub capacity: usize,
+    /// Raw free list head (free bit included).
+    pub free_head: u32,
+    /// Raw `(index, version)` of all `capacity` slots (free bit included in the index).
+    pub slots: Vec<(u32, u32)>,
+    /// Raw `(key, version)` of the `len` dense entity handles.
+    pub entities: Vec<(u32, u32)>,
+}
 
 pub struct DataPtr<T>(NonNull<MaybeUninit<T>>);
 
